@@ -224,13 +224,16 @@ Record PolygonizeSpec (ins : list line) (ps : list poly) (dangles cuts invalid :
   (* the dangles are the edges outside the core (the part left when edges with a free end are removed again and again), the
      cut edges are the bridges of the core *)
   pg_dangles : forall x, In x (useg dangles) <-> In x (dangles_spec (useg ins));
-  pg_cuts : forall x, In x (useg cuts) <-> In x (cuts_spec (useg ins))
+  pg_cuts : forall x, In x (useg cuts) <-> In x (cuts_spec (useg ins));
+  (* sampled: no witness (ear centroid of a ring, midpoint of two vertices of one polygon) is interior to two polygons *)
+  pg_disjoint : forall q, In q (flat_map poly_witnesses ps) -> (length (filter (poly_interior_h q) ps) <= 1)%nat
 }.
 
 Theorem polygonize_check_sound ins ps dangles cuts invalid :
   polygonize_check ins ps dangles cuts invalid = true -> PolygonizeSpec ins ps dangles cuts invalid.
 Proof.
   unfold polygonize_check. intros H.
+  apply andb_true_iff in H. destruct H as [H Kdisj].
   apply andb_true_iff in H. destruct H as [H Kcuts]. apply andb_true_iff in H. destruct H as [H Kdang].
   apply andb_true_iff in H. destruct H as [H Kacc]. apply andb_true_iff in H. destruct H as [H Kedges].
   apply andb_true_iff in H. destruct H as [H Ksides]. apply andb_true_iff in H. destruct H as [Kin Kvalid].
@@ -258,6 +261,7 @@ Proof.
       * apply (disjoint_seg_spec _ _ ACR x Hx).
   - unfold polyg_dangles_ok in Kdang. apply set_eqb_incl in Kdang. destruct Kdang as [D1 D2]. intros x. split; [apply D1 | apply D2].
   - unfold polyg_cuts_ok in Kcuts. apply set_eqb_incl in Kcuts. destruct Kcuts as [D1 D2]. intros x. split; [apply D1 | apply D2].
+  - intros q Iq. unfold polyg_disjoint_ok in Kdisj. rewrite forallb_forall in Kdisj. apply Nat.leb_le. apply Kdisj. exact Iq.
 Qed.
 
 (* ================================================================ shared paths *)
